@@ -313,6 +313,15 @@ theorem C08_useless_bound (sc : Scenario) (a b : List Kind) :
   rw [this]
   exact inLang_long_warn_run _ a b
 
+/-- ChangeCipherSpec never takes effect while handshake bytes sent before it are still unread
+(both stacks, whether or not a ChangeCipherSpec is expected): a Finished coalesced into the
+record of the message before it, i.e. sent before ChangeCipherSpec and unprotected, cannot be
+accepted (F34 repaired in dtlcp; tlcp always had the rule) -/
+theorem C08_ccs_needs_empty_hand (expect : Bool) :
+    classify (progOf tlcpSk serverRoot).table { recOf .ccs with pending := true } expect ≠ .change ∧
+    classify (progOf dtlcpSk serverRoot).table { recOf .ccs with pending := true } expect ≠ .change := by
+  cases expect <;> decide +kernel
+
 /-- the facts the theorems above rest on, as extracted from this tree -/
 theorem C08_facts :
     Facts.missing = [] ∧
